@@ -1,7 +1,13 @@
 (* oracle for the codec model. Protocol: see notes/codec-format.md
    enc <tree> -> ok <hex> | toobig <hex> | err
    dec <cid> <hex> -> ok <tree> | err
-   rt <tree> -> ok <hex> <tree> <hex> | err *)
+   rt <tree> -> ok <hex> <tree> <hex> | err
+   tojson <tree> -> ok|badtext <canonical JSON of Json.to_json> | err
+   jsonrt <tree> -> ok|badtext <tree after Json.of_json (Json.to_json v)> | err
+   (first word ok iff Json.text_ok; the value is in the domain of C01_json_roundtrip iff also `rt` says ok)
+   c01 <tree> -> <rt answer> TAB <tojson answer> TAB <jsonrt answer>   (the tree is parsed once)
+   canonical JSON text: null true false; integers in decimal; strings as "<hex of the UTF-8 bytes>";
+   [a,b]; {Name:value,...} with the member names bare, in document order *)
 open Model
 
 let rec pos_of_int (n:int) : positive =
@@ -11,12 +17,13 @@ let rec int_of_pos = function XH -> 1 | XO p -> 2 * int_of_pos p | XI p -> 2 * i
 let int_of_n = function N0 -> 0 | Npos p -> int_of_pos p
 
 (* decimal strings <-> N for numbers up to 2^64 (beyond OCaml int): go through Int64 unsigned *)
-let n_of_dec (s:string) : n =
+let n_of_dec (s:String.t) : n =
+  if String.length s <= 17 then n_of_int (int_of_string s) else
   (* schoolbook: acc*10 + d using N arithmetic from the model *)
   let ten = n_of_int 10 in
   let acc = ref N0 in
   String.iter (fun ch -> acc := N.add (N.mul !acc ten) (n_of_int (Char.code ch - 48))) s; !acc
-let dec_of_n (x:n) : string =
+let dec_of_n (x:n) : String.t =
   if x = N0 then "0" else begin
     let ten = n_of_int 10 in
     let b = Buffer.create 20 in
@@ -29,17 +36,25 @@ let dec_of_n (x:n) : string =
     done;
     List.iter (fun d -> Buffer.add_char b (Char.chr (48 + d))) !digits; Buffer.contents b end
 
-let hex_of_bytes (l : n list) : string =
+let hexdigits = "0123456789abcdef"
+let hex_of_bytes (l : n list) : String.t =
   let b = Buffer.create 64 in
-  List.iter (fun x -> Buffer.add_string b (Printf.sprintf "%02x" (int_of_n x))) l; Buffer.contents b
-let bytes_of_hex (s:string) : n list =
+  List.iter (fun x -> let v = int_of_n x in
+              if v > 255 then Buffer.add_string b (Printf.sprintf "%02x" v)
+              else (Buffer.add_char b hexdigits.[v lsr 4]; Buffer.add_char b hexdigits.[v land 15])) l;
+  Buffer.contents b
+let byte_table : n array = Array.init 256 n_of_int
+let hexval c = match c with
+  | '0'..'9' -> Char.code c - 48 | 'a'..'f' -> Char.code c - 87 | 'A'..'F' -> Char.code c - 55
+  | _ -> failwith "hex"
+let bytes_of_hex (s:String.t) : n list =
   let n = String.length s / 2 in
-  let rec go i acc = if i < 0 then acc else go (i-1) (n_of_int (int_of_string ("0x" ^ String.sub s (2*i) 2)) :: acc) in
+  let rec go i acc = if i < 0 then acc else go (i-1) (byte_table.(16 * hexval s.[2*i] + hexval s.[2*i+1]) :: acc) in
   go (n-1) []
 
 (* ---- tokenizer / parser for trees ---- *)
-type tok = LP | RP | Atom of string
-let tokenize (s:string) : tok list =
+type tok = LP | RP | Atom of String.t
+let tokenize (s:String.t) : tok list =
   let n = String.length s in
   let rec go i acc =
     if i >= n then List.rev acc
@@ -52,7 +67,7 @@ let tokenize (s:string) : tok list =
         go !j (Atom (String.sub s i (!j - i)) :: acc) in
   go 0 []
 
-exception Parse of string
+exception Parse of String.t
 let strip_x a = if String.length a > 0 && a.[0] = 'x' then String.sub a 1 (String.length a - 1) else raise (Parse "hex")
 let rec parse_value (ts : tok list) : value * tok list =
   match ts with
@@ -102,18 +117,79 @@ and print_list b l =
   let first = ref true in
   List.iter (fun x -> if not !first then Buffer.add_char b ' '; first := false; print_value b x) l
 
+(* ---- JSON trees -> canonical text ---- *)
+let ostring_of_coq (s : Model.string) : String.t =
+  let b = Buffer.create 32 in
+  let bit x k = if x then k else 0 in
+  let rec go = function
+    | EmptyString -> ()
+    | String (Ascii (b0,b1,b2,b3,b4,b5,b6,b7), r) ->
+      Buffer.add_char b (Char.chr (bit b0 1 + bit b1 2 + bit b2 4 + bit b3 8 + bit b4 16 + bit b5 32 + bit b6 64 + bit b7 128));
+      go r in
+  go s; Buffer.contents b
+
+let dec_of_z (z : z) : String.t =
+  match z with
+  | Z0 -> "0"
+  | Zpos p -> dec_of_n (Npos p)
+  | Zneg p -> "-" ^ dec_of_n (Npos p)
+
+let rec print_json (b:Buffer.t) (j:json) : unit =
+  match j with
+  | JNull -> Buffer.add_string b "null"
+  | JBool true -> Buffer.add_string b "true"
+  | JBool false -> Buffer.add_string b "false"
+  | JNum z -> Buffer.add_string b (dec_of_z z)
+  | JStr bs -> Buffer.add_char b '"'; Buffer.add_string b (hex_of_bytes bs); Buffer.add_char b '"'
+  | JArr l ->
+    Buffer.add_char b '[';
+    List.iteri (fun i x -> if i > 0 then Buffer.add_char b ','; print_json b x) l;
+    Buffer.add_char b ']'
+  | JObj m ->
+    Buffer.add_char b '{';
+    List.iteri (fun i (k, x) -> if i > 0 then Buffer.add_char b ',';
+                 Buffer.add_string b (ostring_of_coq k); Buffer.add_char b ':'; print_json b x) m;
+    Buffer.add_char b '}'
+
+let json_string j = let b = Buffer.create 256 in print_json b j; Buffer.contents b
+
 let tree_string v = let b = Buffer.create 256 in print_value b v; Buffer.contents b
 
 let fuel = let rec mk n = if n = 0 then O else S (mk (n-1)) in mk 64
 
-let cid_of (s:string) = (s.[0] = 'M', n_of_dec (String.sub s 1 (String.length s - 1)))
+let cid_of (s:String.t) = (s.[0] = 'M', n_of_dec (String.sub s 1 (String.length s - 1)))
 
 (* first word of an answer: "ok" iff the value lies in the domain of the C01/C02 theorems
    (wfvb, proved sound for Wf.wfv); "toobig" when a TLV's size does not fit 16 bits;
    "notwf" for any other reason *)
 let status v = if wfvb llrp_table v then "ok " else if fits llrp_table v then "notwf " else "toobig "
 
-let handle (line:string) : string =
+(* text fields hold valid UTF-8?  (the value is in the domain of C01_json_roundtrip iff, in addition,
+   `rt` answers ok, i.e. wfvb holds) *)
+let jstatus v = if text_ok llrp_jtable v then "ok " else "badtext "
+
+let answer_rt v =
+  match v, encode llrp_table v with
+  | VStruct (msg, tid, _, _), Some bs ->
+    (match decode llrp_table fuel msg tid bs with
+     | None -> "err decode " ^ hex_of_bytes bs
+     | Some v2 ->
+       (match encode llrp_table v2 with
+        | None -> "err reencode"
+        | Some bs2 -> (status v) ^ hex_of_bytes bs ^ " " ^ tree_string v2 ^ " " ^ hex_of_bytes bs2))
+  | _, _ -> "err"
+
+let answer_tojson v =
+  match to_json llrp_jtable v with
+  | None -> "err"
+  | Some j -> (jstatus v) ^ json_string j
+
+let answer_jsonrt v =
+  match json_roundtrip_of llrp_jtable v with
+  | None -> "err"
+  | Some v2 -> (jstatus v) ^ tree_string v2
+
+let handle (line:String.t) : String.t =
   let line = String.trim line in
   if line = "" then "" else
   let sp = try String.index line ' ' with Not_found -> String.length line in
@@ -133,17 +209,24 @@ let handle (line:string) : string =
       (match decode llrp_table fuel msg tid (bytes_of_hex hex) with
        | None -> "err"
        | Some v -> "ok " ^ tree_string v)
+    | "c01" ->
+      (* rt, tojson and jsonrt of one tree, parsed once; answers separated by tabs *)
+      let (v, _) = parse_value (tokenize rest) in
+      let st = jstatus v in
+      (match v, to_json llrp_jtable v with
+       | VStruct (msg, tid, _, _), Some j ->
+         let a3 = (match of_json llrp_jtable msg tid j with Some v2 -> st ^ tree_string v2 | None -> "err") in
+         String.concat "\t" [answer_rt v; st ^ json_string j; a3]
+       | _, _ -> String.concat "\t" [answer_rt v; "err"; "err"])
     | "rt" ->
       let (v, _) = parse_value (tokenize rest) in
-      (match v, encode llrp_table v with
-       | VStruct (msg, tid, _, _), Some bs ->
-         (match decode llrp_table fuel msg tid bs with
-          | None -> "err decode " ^ hex_of_bytes bs
-          | Some v2 ->
-            (match encode llrp_table v2 with
-             | None -> "err reencode"
-             | Some bs2 -> (status v) ^ hex_of_bytes bs ^ " " ^ tree_string v2 ^ " " ^ hex_of_bytes bs2))
-       | _, _ -> "err")
+      answer_rt v
+    | "tojson" ->
+      let (v, _) = parse_value (tokenize rest) in
+      answer_tojson v
+    | "jsonrt" ->
+      let (v, _) = parse_value (tokenize rest) in
+      answer_jsonrt v
     | _ -> "error bad request"
   with Parse m -> "error parse " ^ m | Not_found -> "error bad request" | Failure m -> "error " ^ m | Invalid_argument m -> "error " ^ m
 
